@@ -1178,6 +1178,8 @@ func (e *Engine) needWin() {
 	ax("win_len", "(forall ((a (Array Int Int)) (o Int) (n Int)) (! (=> (<= 0 n) (= (blen (win a o n)) n)) :pattern ((win a o n))))")
 	ax("win_at", "(forall ((a (Array Int Int)) (o Int) (n Int) (i Int)) (! (=> (and (<= 0 i) (< i n)) (= (bat (win a o n) i) (select a (+ o i)))) :pattern ((bat (win a o n) i))))")
 	ax("win_split", "(forall ((a (Array Int Int)) (o Int) (n Int) (k Int)) (! (=> (and (<= 0 k) (<= k n)) (= (btake (win a o n) k) (win a o k))) :pattern ((btake (win a o n) k))))")
+	// two arrays that agree on a window have the same window contents (opt-in: `use winframe`)
+	e.d.addAxiom("winframe", "win_frame", "(forall ((a (Array Int Int)) (b (Array Int Int)) (o Int) (n Int)) (! (=> (forall ((i Int)) (=> (and (<= o i) (< i (+ o n))) (= (select a i) (select b i)))) (= (win a o n) (win b o n))) :pattern ((win a o n) (win b o n))))")
 	ax("win_drop", "(forall ((a (Array Int Int)) (o Int) (n Int) (k Int)) (! (=> (and (<= 0 k) (<= k n)) (= (bdrop (win a o n) k) (win a (+ o k) (- n k)))) :pattern ((bdrop (win a o n) k))))")
 }
 
